@@ -145,3 +145,137 @@ func (h *vRecHandler) Stop(err error) error {
 	h.stopped++
 	return err
 }
+
+// vRecSession records the Session calls it receives and answers with
+// nondeterministic (symbolic) results.
+type vRecCall struct {
+	op     string
+	fid    Fid
+	afid   Fid // afid / newfid
+	s1, s2 string
+	names  []string
+	perm   uint32
+	mode   Flag
+	offset int64
+	plen   int
+	data   []byte
+	dir    Dir
+}
+
+type vRecSession struct {
+	msize  int
+	calls  []vRecCall
+	fail   bool   // every call returns rerr
+	rerr   error
+	rqid   Qid
+	rqids  []Qid
+	riou   uint32
+	rn     int
+	rdata  []byte
+	rdir   Dir
+	stops  int
+	lazy   bool
+	sh     *vShape
+	nmax   int
+}
+
+// gen draws the results a call needs on demand (keeps the choice space small)
+func (s *vRecSession) gen(what string) {
+	if !s.lazy {
+		return
+	}
+	switch what {
+	case "qid":
+		s.rqid = ndQid("rqid")
+	case "qids":
+		nq := ndChoice("nrqids", 3)
+		s.rqids = nil
+		for i := 0; i < nq; i++ {
+			s.rqids = append(s.rqids, ndQid("rq"))
+		}
+	case "iou":
+		s.riou = ndU32("riou")
+	case "dir":
+		s.rdir = ndDir("rdir", s.sh)
+	case "n":
+		s.rn = ndChoice("rn", s.nmax+1)
+	case "data":
+		s.rdata = ndBytes("rdata", s.nmax)
+	}
+}
+
+func (s *vRecSession) rec(c vRecCall) error {
+	s.calls = append(s.calls, c)
+	if s.fail {
+		return s.rerr
+	}
+	return nil
+}
+
+func (s *vRecSession) Auth(ctx context.Context, afid Fid, uname, aname string) (Qid, error) {
+	s.gen("qid")
+	return s.rqid, s.rec(vRecCall{op: "auth", afid: afid, s1: uname, s2: aname})
+}
+func (s *vRecSession) Attach(ctx context.Context, fid, afid Fid, uname, aname string) (Qid, error) {
+	s.gen("qid")
+	return s.rqid, s.rec(vRecCall{op: "attach", fid: fid, afid: afid, s1: uname, s2: aname})
+}
+func (s *vRecSession) Clunk(ctx context.Context, fid Fid) error {
+	return s.rec(vRecCall{op: "clunk", fid: fid})
+}
+func (s *vRecSession) Remove(ctx context.Context, fid Fid) error {
+	return s.rec(vRecCall{op: "remove", fid: fid})
+}
+func (s *vRecSession) Walk(ctx context.Context, fid Fid, newfid Fid, names ...string) ([]Qid, error) {
+	s.gen("qids")
+	return s.rqids, s.rec(vRecCall{op: "walk", fid: fid, afid: newfid, names: names})
+}
+func (s *vRecSession) Read(ctx context.Context, fid Fid, p []byte, offset int64) (int, error) {
+	s.gen("n")
+	s.gen("data")
+	err := s.rec(vRecCall{op: "read", fid: fid, plen: len(p), offset: offset})
+	n := s.rn
+	if n > len(p) {
+		n = len(p)
+	}
+	copy(p, s.rdata[:n])
+	return n, err
+}
+func (s *vRecSession) Write(ctx context.Context, fid Fid, p []byte, offset int64) (int, error) {
+	s.gen("n")
+	return s.rn, s.rec(vRecCall{op: "write", fid: fid, data: append([]byte(nil), p...), offset: offset})
+}
+func (s *vRecSession) Open(ctx context.Context, fid Fid, mode Flag) (Qid, uint32, error) {
+	s.gen("qid")
+	s.gen("iou")
+	return s.rqid, s.riou, s.rec(vRecCall{op: "open", fid: fid, mode: mode})
+}
+func (s *vRecSession) Create(ctx context.Context, parent Fid, name string, perm uint32, mode Flag) (Qid, uint32, error) {
+	s.gen("qid")
+	s.gen("iou")
+	return s.rqid, s.riou, s.rec(vRecCall{op: "create", fid: parent, s1: name, perm: perm, mode: mode})
+}
+func (s *vRecSession) Stat(ctx context.Context, fid Fid) (Dir, error) {
+	s.gen("dir")
+	return s.rdir, s.rec(vRecCall{op: "stat", fid: fid})
+}
+func (s *vRecSession) WStat(ctx context.Context, fid Fid, dir Dir) error {
+	return s.rec(vRecCall{op: "wstat", fid: fid, dir: dir})
+}
+func (s *vRecSession) Version() (int, string) { return s.msize, DefaultVersion }
+func (s *vRecSession) Stop(err error) error   { s.stops++; return err }
+
+// vRT is a mock roundTripper: records the request, returns a scripted reply.
+type vRT struct {
+	sent  []Message
+	reply Message
+	err   error
+}
+
+func (t *vRT) send(ctx context.Context, msg Message) (Message, error) {
+	t.sent = append(t.sent, msg)
+	if t.err != nil {
+		return nil, t.err
+	}
+	return t.reply, nil
+}
